@@ -41,6 +41,11 @@ def obligations(tier):
     obls.append(CH("custom_types_every_property_kind", H, "custom_property_kinds", t, mode="E1s", functions=["stix2.properties.ListProperty.clean"] + F[:3], stubs=[REG],
                    bounds="13 property kinds x single / ListProperty x custom object / observable / property-extension: a legal value is accepted, serialized, and the "
                           "serialization strictly parses back to an equal object"))
+    obls.append(CH("types_declared_with_extension_name", H, "extension_name_types", t, mode="E1s", functions=["stix2.custom._custom_object_builder", "stix2.custom._custom_observable_builder"] + F[:2],
+                   stubs=[REG], bounds="custom object / observable declared with extension_name x other extensions (none, registered, unregistered, both) x own extension "
+                                       "listed or not x constructor / parse dict / parse text: all extensions kept, own one present, strict round trip"))
+    obls.append(CH("registration_scopes_references", H, "version_scoped_references", t, mode="E1s", functions=["stix2.properties.ReferenceProperty.clean", "stix2.utils.is_object"] + F[:1],
+                   stubs=[REG], bounds="a custom object type registered for 2.0 or 2.1 only x referenced from a 2.0 / 2.1 Relationship or Sighting x allow_custom"))
     obls.append(CH("marking_definition_uses_registered_class", H, "marking_definition_forms", t, mode="E1s", functions=["stix2.v21.common.MarkingDefinition.__init__",
                    "stix2.v20.common.MarkingDefinition.__init__", "stix2.v21.common.MarkingProperty.clean"] + F[:2], stubs=[REG],
                    bounds="2 versions x 3 definition types (two registered custom markings, statement) x 7 forms of the definition (dict, instance of each registered "
